@@ -178,7 +178,7 @@ func C12(c *Ctx) error {
 					key := fmt.Sprintf("accepted:%s:%s", strings.TrimPrefix(p, "protoc-gen-"), rule)
 					// the recorded enum class is about map-valued fields only (the check tests the
 					// descriptor kind): any other accepted shape of that rule is a class of its own
-					if rule == "enum_number_with_custom_values" && cs.variant != "map value" {
+					if rule == "enum_number_with_custom_values" && !strings.HasPrefix(cs.variant, "map value") {
 						key += ":" + strings.ReplaceAll(cs.variant+"_field", " ", "_")
 					}
 					if !inGen {
